@@ -26,7 +26,7 @@ RULE = ("translation strings built from a pool of awkward characters (quotes, ba
         "string that needs escaping or is non-ASCII; distinct = distinct (render history, strings) pairs.  "
         "Real renders (generated accessors inside the generated <I18nContextProvider>, strings from the harness's locale "
         "files: 3 locales x 3 namespaces x 3 keys with quotes, backslash, </script>, <!--, LF, TAB, U+2028, non-ASCII): "
-        "requests of 1-4 renders run one after the other in one process, 0-5 accesses per render, each access = "
+        "requests of 1-4 renders run one after the other in one process, 0-5 accesses per render (in a third of the requests some of them below an <I18nSubContextProvider> of the page), each access = "
         "(namespace, locale, how) with how in eager_string (t_string!), eager_display (t_display!), td_string (td_string!) "
         "- evaluated while the provider's children are built - and reactive_view (t! evaluated when the page is rendered); "
         "units drawn mostly from a small per-request pool so that renders repeat units of earlier renders, units touched "
@@ -252,12 +252,15 @@ def real_files(names):
 def gen_real(rng):
     pool = [(rng.below(3), rng.below(3)) for _ in range(rng.range(1, 3))]
     hows = HOWS if not rng.chance(1, 4) else [rng.pick(HOWS)]
+    sub_some = rng.chance(1, 3)
     renders = []
     for _ in range(rng.range(1, 4)):
         acc = []
         for _ in range(rng.weighted([(2, 0), (5, 1), (4, 2), (3, 3), (1, 4), (1, 5)])):
             (l, n) = rng.pick(pool) if not rng.chance(1, 5) else (rng.below(3), rng.below(3))
             acc.append({"ns": n, "locale": l, "how": rng.pick(hows)})
+            if sub_some and rng.chance(1, 2):
+                acc[-1]["sub"] = True      # rendered below an <I18nSubContextProvider> of the same page: its units belong to the page's script too
         renders.append(acc)
     return {"real": True, "renders": renders}
 
@@ -276,6 +279,9 @@ REAL_CORPUS = [{"real": True, "renders": r} for r in (
     [[_acc(2, 1, "eager_string")], [], [_acc(2, 1, "td_string"), _acc(0, 1, "reactive_view")], [_acc(2, 1, "reactive_view")]],
     [[_acc(n, l, HOWS[(n + l) % 4]) for l in range(3) for n in range(3)][:5], [_acc(n, l, HOWS[(n + 2 * l) % 4]) for n in range(3) for l in range(3)][4:9]],
 )]
+# units touched only below a sub-context provider, next to units touched by the page itself
+REAL_CORPUS += [{"real": True, "renders": [[_acc(0, 0, "eager_string"), dict(_acc(0, 1, h), sub=True), dict(_acc(1, 1, "reactive_view"), sub=True)]]} for h in ("eager_string", "reactive_view", "td_string")]
+REAL_CORPUS += [{"real": True, "renders": [[dict(_acc(2, 2, "eager_display"), sub=True)], [dict(_acc(2, 2, "reactive_view"), sub=True), _acc(0, 0, "reactive_view")]]}]
 # every (namespace, locale, how) alone, as the first render of a process and again as the second
 REAL_CORPUS += [{"real": True, "renders": [[_acc(n, l, h)], [_acc(n, l, h)]]} for n in range(3) for l in range(3) for h in HOWS]
 
@@ -412,7 +418,7 @@ def real_payload(files, case, ri, probs, rr, m):
 def ok_real_shape(c):
     return (isinstance(c, dict) and c.get("real") is True and isinstance(c.get("renders"), list) and len(c["renders"]) >= 1
             and all(isinstance(r, list) and all(isinstance(a, dict) and a.get("ns") in (0, 1, 2) and a.get("locale") in (0, 1, 2)
-                                                 and a.get("how") in HOWS and len(a) == 3 for a in r) for r in c["renders"]))
+                                                 and a.get("how") in HOWS and (len(a) == 3 or (len(a) == 4 and a.get("sub") is True)) for a in r) for r in c["renders"]))
 
 
 def shrink_real(binr, files, case, sig):
